@@ -20,6 +20,11 @@ Theorem C01_id_is_proxy_drawn :
 Proof. repeat split; reflexivity. Qed.
 Print Assumptions C01_id_is_proxy_drawn.
 
+(* ... and the header of the response it relays: every field that is not hop-by-hop with all of its values *)
+Theorem C01_header_relay : frontendHeaderRelay = ["if isHopByHopHeader(name) { continue }"; "w.Header()[name] = vals"]%string.
+Proof. reflexivity. Qed.
+Print Assumptions C01_header_relay.
+
 (* the proxy starts no goroutine of its own: the body of a response is relayed to the client by that client's own
    handler, and nothing is written to a client's connection after its handler has returned (net/http hands the
    write buffer of a finished response to the next one) - the model's Post label is one step *)
